@@ -46,14 +46,17 @@ func (r *vlRegistry) Ping() error { return nil }
 func VH_C15_labels() {
 	vrt.CheckLeaks()
 	vrt.Unwind(400)
-	maxRows, maxLen := 2, 2
-	if vrt.Thorough() {
-		maxRows, maxLen = 3, 3
+	// bytes are escaped independently of each other: quick = up to 2 rows of up to 2 bytes; thorough adds a
+	// single row of 3-4 bytes (every combination of escape classes next to each other) instead of multiplying
+	// rows by lengths
+	maxRows, minLen, maxLen := 2, 0, 2
+	if vrt.Thorough() && vrt.Bool("one-long-row") {
+		maxRows, minLen, maxLen = 1, 3, 4
 	}
 	n := vrt.Len("rows", 0, maxRows)
 	vals := make([]string, n)
 	for i := range vals {
-		vals[i] = vrt.String("label", vrt.Len("label-len", 0, maxLen))
+		vals[i] = vrt.String("label", vrt.Len("label-len", minLen, maxLen))
 		for j := 0; j < len(vals[i]); j++ {
 			vrt.Assume(vals[i][j] < 0x80) // non-ASCII: UTF-8 validity is a separate question (out of scope)
 		}
